@@ -376,7 +376,7 @@ def rule_r3(chk, m):
                     break
             chk.ob("C09-R3", f"dates.DailyPeriod.{name}", bad is None,
                    f"ordinal of date{ymd} on 7 days incl. leap day and year ends" if bad is None else
-                   f"{name}() of {bad[0]} gives {bad[1]} (want the period of ordinal {bad[2][1]} = date{ymd})", m.loc(f))
+                   f"{name}() of {bad[0]} gives {bad[1]} (want the period of ordinal {bad[2][1]} = date{ymd})", m.loc(f), sure=True)
         except fin.NotFinite as ex:
             chk.undecided("C09-R3", f"dates.DailyPeriod.{name}", f"not evaluable: {ex}", m.loc(f))
 
@@ -465,7 +465,7 @@ def rule_r4(chk, m):
                 break
         chk.ob("C09-R4", "dates.RegularPeriodMixin.to_ymd", bad is None,
                f"{n_cases} cases (class x position x segment x year incl. leap): (year, table month, table day or the month's last day when the table says None)"
-               if bad is None else f"{bad[0]} position={bad[1]} segment={bad[2]} year={bad[3]}: to_ymd gives {bad[4]} (want {bad[5]})", m.loc(f))
+               if bad is None else f"{bad[0]} position={bad[1]} segment={bad[2]} year={bad[3]}: to_ymd gives {bad[4]} (want {bad[5]})", m.loc(f), sure=True)
     except fin.NotFinite as ex:
         chk.undecided("C09-R4", "dates.RegularPeriodMixin.to_ymd", f"not evaluable: {ex}", m.loc(f))
     f = m.func("RegularPeriodMixin.from_ymd")
@@ -571,10 +571,10 @@ def rule_r5(chk, m):
                     bad_t = (jan1 + seg - 1, tuple(back), (year, seg))
         chk.ob("C09-R5", "dates.DailyPeriod.from_year_segment[affine]", bad_f is None,
                f"{n_cases} cases (years incl. leap and 1/9999, segments incl. 59..61 and the last day): serial = ordinal(Jan 1) + segment - 1"
-               if bad_f is None else f"from_year_segment({bad_f[0]}, {bad_f[1]}) has serial {bad_f[2]} (want {bad_f[3]})", m.loc(f))
+               if bad_f is None else f"from_year_segment({bad_f[0]}, {bad_f[1]}) has serial {bad_f[2]} (want {bad_f[3]})", m.loc(f), sure=True)
         chk.ob("C09-R5", "dates.DailyPeriod.to_year_segment[affine]", bad_t is None,
                "segment = serial - ordinal(Jan 1) + 1 on the same cases (inverse of from_year_segment)"
-               if bad_t is None else f"to_year_segment of serial {bad_t[0]} gives {bad_t[1]} (want {bad_t[2]})", m.loc(g))
+               if bad_t is None else f"to_year_segment of serial {bad_t[0]} gives {bad_t[1]} (want {bad_t[2]})", m.loc(g), sure=True)
     except fin.NotFinite as ex:
         chk.undecided("C09-R5", "dates.DailyPeriod.from_year_segment[affine]", f"not evaluable: {ex}", m.loc(f))
         chk.undecided("C09-R5", "dates.DailyPeriod.to_year_segment[affine]", f"not evaluable: {ex}", m.loc(g))
